@@ -246,8 +246,48 @@ func (r *run) roundTrip(rr dns.RR, key string, alpha bool, s src, c interface{})
 	} else if !bytes.Equal(ow, w2) {
 		r.mis(alpha, "present/reparse-"+diffPart(ow, w2)+":"+key, fmt.Sprintf("text %.300q: original packs to %.200x, re-parsed to %.200x", text, ow, w2), c)
 	}
+	if r.last == nil && rr2 != nil && perr == nil {
+		r.respelled(rr, text, ow, key, alpha, c)
+	}
 	r.emit(event{Key: key, Text: hx.FromString(text), Wire: hx.FromBytes(ow), Hk: decodeHk(text), Src: s, Alpha: alpha, Gomis: r.last})
 	r.last = nil
+}
+
+// respelled: "type and class may be written as mnemonic or TYPEnnn / CLASSnnn": the same text with the type (and then
+// also the class) respelled numerically must give the same record -- the typed RDATA under a TYPEnnn-spelled type.
+func (r *run) respelled(rr dns.RR, text string, ow []byte, key string, alpha bool, c interface{}) {
+	parts := strings.SplitN(text, "\t", 5)
+	if len(parts) != 5 {
+		return
+	}
+	h := rr.Header()
+	for v := 0; v < 2; v++ {
+		p := append([]string(nil), parts...)
+		p[3] = fmt.Sprintf("TYPE%d", h.Rrtype)
+		if v == 1 {
+			p[2] = fmt.Sprintf("CLASS%d", h.Class)
+			p[3] = strings.ToLower(p[3])
+		}
+		t2 := strings.Join(p, "\t")
+		if t2 == text {
+			continue
+		}
+		r.sum.Evaluations++
+		var rr2 dns.RR
+		var err error
+		if pn := hx.Catch(func() { rr2, err = dns.NewRR(t2) }); pn != "" {
+			r.mis(alpha, "present/numeric-header-panic:"+key, "NewRR panics on the text with TYPEnnn: "+pn, c)
+		} else if err != nil || rr2 == nil {
+			r.mis(alpha, "present/numeric-header-error:"+key, fmt.Sprintf("NewRR(%.300q) (String() with the type respelled TYPEnnn): %v", t2, err), c)
+		} else if w2, err := packRR(rr2); err != nil {
+			r.mis(alpha, "present/numeric-header-pack-error:"+key, fmt.Sprintf("NewRR(%.300q) gives a record that does not pack: %v", t2, err), c)
+		} else if !bytes.Equal(ow, w2) {
+			r.mis(alpha, "present/numeric-header-"+diffPart(ow, w2)+":"+key, fmt.Sprintf("text %.300q: original packs to %.200x, this text to %.200x", t2, ow, w2), c)
+		}
+		if r.last != nil {
+			return
+		}
+	}
 }
 
 func (r *run) emit(e event) {
@@ -321,6 +361,27 @@ func (r *run) generic(a *wire.RR, seg []byte, key string, c interface{}) {
 			r.sum.Mis("present/generic-"+diffPart(want, w)+":"+key, fmt.Sprintf("text %.300q packs to %.200x, the same octets unpacked pack to %.200x", text, w, want), c)
 		}
 	}
+	// the same hex cut into words wherever it spells a type / class mnemonic of the specification's tables (RFC 3597 s.5:
+	// white space may separate the hex words), lower and upper case: `\\# 2 aaaa`, `\\# 5 a aaaa a caa 0`
+	if uerr == nil && len(rd) > 0 && len(rd) <= 40 {
+		for _, up := range []bool{false, true} {
+			t2 := genericText(a, nil)
+			t2 = strings.Replace(t2, "\\# 0", fmt.Sprintf("\\# %d %s", len(rd), mnemonicWords(hex.EncodeToString(rd), up)), 1)
+			if t2 == text {
+				continue
+			}
+			r.sum.Evaluations++
+			var rr2 dns.RR
+			var err2 error
+			if p := hx.Catch(func() { rr2, err2 = dns.NewRR(t2) }); p != "" {
+				r.sum.Mis("present/generic-panic:"+key, "NewRR of the RFC 3597 form panics: "+p, c)
+			} else if err2 != nil || rr2 == nil {
+				r.sum.Mis("present/generic-words-error:"+key, fmt.Sprintf("NewRR(%.300q): %v", t2, err2), c)
+			} else if w, err := packRR(rr2); err != nil || !bytes.Equal(w, want) {
+				r.sum.Mis("present/generic-words-rdata:"+key, fmt.Sprintf("text %.300q packs to %.200x (%v), the same octets unpacked pack to %.200x", t2, w, err, want), c)
+			}
+		}
+	}
 	// negative probes (a tenth of the records): the stated length one too large / one too small must be refused
 	if h := sha1.Sum([]byte(text)); h[1]%10 == 0 && len(rd) > 0 {
 		for _, n := range []int{len(rd) + 1, len(rd) - 1} {
@@ -339,6 +400,46 @@ func (r *run) generic(a *wire.RR, seg []byte, key string, c interface{}) {
 		return
 	}
 	r.emit(event{Key: key, Text: hx.FromString(text), Wire: hx.FromBytes(seg), Hk: []hkEntry{}, Src: src{Origin: "generic", Text: hx.FromString(text)}, Alpha: true})
+}
+
+// mnemonicWords cuts a hex string into words so that every occurrence of a type or class mnemonic (specification tables)
+// stands alone as a word.
+func mnemonicWords(h string, upper bool) string {
+	var words []string
+	cur := ""
+	for i := 0; i < len(h); {
+		best := ""
+		for m := range P.types {
+			if len(m) > len(best) && len(h)-i >= len(m) && strings.EqualFold(h[i:i+len(m)], m) {
+				best = m
+			}
+		}
+		for _, e := range P.Classes {
+			m := e.M.String()
+			if len(m) > len(best) && len(h)-i >= len(m) && strings.EqualFold(h[i:i+len(m)], m) {
+				best = m
+			}
+		}
+		if best == "" {
+			cur += h[i : i+1]
+			i++
+			continue
+		}
+		if cur != "" {
+			words = append(words, cur)
+			cur = ""
+		}
+		words = append(words, h[i:i+len(best)])
+		i += len(best)
+	}
+	if cur != "" {
+		words = append(words, cur)
+	}
+	out := strings.Join(words, " ")
+	if upper {
+		out = strings.ToUpper(out)
+	}
+	return out
 }
 
 // ---------------------------------------------------------------- replay
